@@ -14,7 +14,7 @@ def signature(con):
             if name.startswith("sqlite_"):
                 continue
             cols = con.execute('PRAGMA table_info("%s")' % name).fetchall()
-            sig["tables"][name] = [(c[1], (c[2] or "").upper(), c[3], c[4], c[5]) for c in cols]
+            sig["tables"][name] = [(c[1], (c[2] or ""), c[3], c[4], c[5]) for c in cols]
         elif typ == "view":
             sig["views"].add(name)
         elif typ == "trigger":
@@ -83,7 +83,16 @@ def edit_column(sql, column, how):
         if name.lower() != column.lower():
             continue
         rest = seg[end:]
-        if how == "type":
+        if how in ("type_case", "type_prefix"):
+            m = re.match(r"(\s*)([A-Za-z]+)", rest)
+            if not m:
+                return None
+            old = m.group(2)
+            new = (old.lower() if old != old.lower() else old.upper()) if how == "type_case" else (old[:3] if len(old) > 3 else old + "X")
+            if new == old:
+                return None
+            rest = m.group(1) + new + rest[m.end():]
+        elif how == "type":
             m = re.match(r"(\s*)([A-Za-z]+)", rest)
             if m:
                 old = m.group(2).upper()
@@ -123,7 +132,7 @@ def enumerate_mutations(path):
             name = c[0]
             muts.append(("drop_column", t, name))
             muts.append(("rename_column", t, name))
-            for how in ("type", "notnull", "default", "pk"):
+            for how in ("type", "type_case", "type_prefix", "notnull", "default", "pk"):
                 muts.append(("edit_column", t, name, how))
     for v in sig["views"]:
         muts.append(("drop_view", v))
@@ -255,7 +264,7 @@ def _confined(before, after, m):
                 return False
         if len(bt[t]) != len(at[t]):
             return False
-        idx = {"type": 1, "notnull": 2, "default": 3, "pk": 4}[how]
+        idx = {"type": 1, "type_case": 1, "type_prefix": 1, "notnull": 2, "default": 3, "pk": 4}[how]
         changed = False
         for x, y in zip(bt[t], at[t]):
             if x == y:
